@@ -113,3 +113,29 @@ func HarnessC10Tree() {
 		vAssert(vEqStr(out, pre+refEscapeLiteral(text)+post), "literal-is-html-escaped-with-quotes-as-written")
 	}
 }
+
+// HarnessC10Reuse: one literal used several times in a template, with and without raw(): every plain use is
+// escaped and every raw() use is the original text, whatever the order of the uses.
+func HarnessC10Reuse() {
+	q := []byte{'"', '\''}[vChoice("quote", 2)]
+	body, text := symLiteral(vParam("K"), q)
+	lit := string([]byte{q}) + body + string([]byte{q})
+	esc := refEscapeLiteral(text)
+	var src, want string
+	switch vChoice("shape", 5) {
+	case 0:
+		src, want = "{{ x = "+lit+" }}{{ x.raw() }}|{{ x }}", text+"|"+esc
+	case 1:
+		src, want = "{{ x = "+lit+" }}{{ x }}|{{ x.raw() }}|{{ x }}", esc+"|"+text+"|"+esc
+	case 2:
+		src, want = "@each(v in ["+lit+"]){{ v.raw() }}|{{ v }}@end", text+"|"+esc
+	case 3:
+		src, want = "{{ x = "+lit+" }}@if(x.raw().len() >= 0){{ x }}@end", esc
+	default:
+		src, want = "{{ x = "+lit+"; y = x }}{{ y.raw() }}|{{ x }}|{{ [x, x.raw()] }}", text+"|"+esc+"|"+esc+", "+text
+	}
+	out, err := EvaluateString(src, nil)
+	vCover("rendered")
+	vAssert(err == nil, "literal-renders-without-error")
+	vAssert(vEqStr(out, want), "plain-uses-are-escaped-and-raw-uses-are-not")
+}
